@@ -13,7 +13,6 @@ import Gen.Guards.FillersOK
 import Gen.Guards.LabelsOK
 import Gen.Guards.LeafOk
 import Gen.Guards.TextLoop
-import Gen.Guards.TextStable
 import Gen.Guards.TextStableC
 import Gen.Guards.WrapOK
 namespace PM.Family.C04
@@ -29,6 +28,18 @@ theorem replace_undo_transitive (S : Schema) (hS : S ∈ familySchemas) (doc doc
     (ha : alignedAt doc'.kids f = true ∧ alignedAt doc'.kids (f + sl.size.toNat) = true) :
     S.apply inv doc' = .ok doc :=
   PM.C04.replace_undo_transitive S doc doc' f t sl b inv (family_compatTrans _ hS) hd hn hsn h1 hi ha
+
+/-- `PM.C04.replaceAround_undo_bmp` with its schema guards discharged for the bundled schema family -/
+theorem replaceAround_undo_bmp (S : Schema) (hS : S ∈ familySchemas) (d d' : Node) (f t gf gt : Nat)
+    (sl : Slice) (ins : Nat) (b : Bool) (hv : S.checkNode d = true) (hn : fnorm d.kids = true)
+    (hsn : fnorm sl.content = true) (hwf : sl.wf = true) (hgo : f ≤ gf ∧ gf ≤ gt ∧ gt ≤ t)
+    (h : S.apply (.replaceAround f t gf gt sl ins b) d = .ok d')
+    (hst : b = true → contentBetween d' f (f + ins) = some false ∧
+      contentBetween d' (f + ins + (gt - gf)) (f + sl.size.toNat + (gt - gf)) = some false)
+    (hb : bmpDoc d = true) (hb' : bmpDoc d' = true) :
+    ∃ inv, S.invert (.replaceAround f t gf gt sl ins b) d = .ok inv ∧ S.apply inv d' = .ok d :=
+  PM.C04.replaceAround_undo_bmp S (family_compatTrans _ hS) d d' f t gf gt sl ins b hv hn hsn hwf hgo h hst hb
+    hb'
 
 /-- `PM.C04.removeMarkStep_undo` with its schema guards discharged for the bundled schema family -/
 theorem removeMarkStep_undo (S : Schema) (hS : S ∈ familySchemas) (doc doc' : Node) (f t : Nat) (m : Mark)
@@ -136,114 +147,93 @@ theorem delete_residual_around (S : Schema) (hS : S ∈ familySchemas) (tr tr1 :
     hattrs f t hft h hres
 
 /-- `PM.C04.insertInline_residual` with its schema guards discharged for the bundled schema family -/
-theorem insertInline_residual (S : Schema) (hS : S ∈ domFamilySchemas) (tr tr1 : Tr)
+theorem insertInline_residual (S : Schema) (hS : S ∈ familySchemas) (tr tr1 : Tr)
     (hlen : tr.steps.length = tr.docs.length) (hv : C01.Valid S tr.doc) (hattrs : S.nodeAttrsOK tr.doc = true)
     (f t : Nat) (sl : Slice) (hsl : sl.inlineLeaves S = true) (hslv : sl.closedValid S = true)
     (h : tr.runOp S (.replace f t sl) = some tr1) (hres : DeleteResidual S tr tr1) :
     OpResidual S (.replace f t sl) tr tr1 :=
-  PM.C04.insertInline_residual S (family_det _ (domFamily_sub _ hS)) (family_fillersOK _ (domFamily_sub _ hS))
-    (family_wrapOK _ (domFamily_sub _ hS)) (family_labelsOK _ (domFamily_sub _ hS))
-    (family_leafOk _ (domFamily_sub _ hS)) (family_textStableC _ (domFamily_sub _ hS))
-    (family_closable _ (domFamily_sub _ hS)) tr tr1 hlen hv hattrs f t sl hsl hslv h hres
+  PM.C04.insertInline_residual S (family_det _ hS) (family_fillersOK _ hS) (family_wrapOK _ hS)
+    (family_labelsOK _ hS) (family_leafOk _ hS) (family_textStableC _ hS) (family_closable _ hS) tr tr1 hlen hv
+    hattrs f t sl hsl hslv h hres
 
 /-- `PM.C04.insertInline_residual_around` with its schema guards discharged for the bundled schema family -/
-theorem insertInline_residual_around (S : Schema) (hS : S ∈ domFamilySchemas) (tr tr1 : Tr)
+theorem insertInline_residual_around (S : Schema) (hS : S ∈ familySchemas) (tr tr1 : Tr)
     (hlen : tr.steps.length = tr.docs.length) (hv : C01.Valid S tr.doc) (hattrs : S.nodeAttrsOK tr.doc = true)
     (f t : Nat) (hft : f ≤ t) (sl : Slice) (hsl : sl.inlineLeaves S = true) (hslv : sl.closedValid S = true)
     (h : tr.runOp S (.replace f t sl) = some tr1) (hres : InsertInlineResidualAround S tr tr1) :
     OpResidual S (.replace f t sl) tr tr1 :=
-  PM.C04.insertInline_residual_around S (family_det _ (domFamily_sub _ hS))
-    (family_fillersOK _ (domFamily_sub _ hS)) (family_wrapOK _ (domFamily_sub _ hS))
-    (family_labelsOK _ (domFamily_sub _ hS)) (family_leafOk _ (domFamily_sub _ hS))
-    (family_textStableC _ (domFamily_sub _ hS)) (family_closable _ (domFamily_sub _ hS)) tr tr1 hlen hv hattrs f
-    t hft sl hsl hslv h hres
+  PM.C04.insertInline_residual_around S (family_det _ hS) (family_fillersOK _ hS) (family_wrapOK _ hS)
+    (family_labelsOK _ hS) (family_leafOk _ hS) (family_textStableC _ hS) (family_closable _ hS) tr tr1 hlen hv
+    hattrs f t hft sl hsl hslv h hres
 
 /-- `PM.C04.replace_residual_of_inv` with its schema guards discharged for the bundled schema family -/
-theorem replace_residual_of_inv (S : Schema) (hS : S ∈ domFamilySchemas) (tr tr1 : Tr)
+theorem replace_residual_of_inv (S : Schema) (hS : S ∈ familySchemas) (tr tr1 : Tr)
     (hlen : tr.steps.length = tr.docs.length) (hattrs : S.nodeAttrsOK tr.doc = true) (f t : Nat) (sl : Slice)
     (hslv : openValid S sl.openStart sl.openEnd sl.content = true)
     (hend : fitEndInv S tr.doc f t sl ≠ some false) (h : tr.runOp S (.replace f t sl) = some tr1)
     (hres : DeleteResidual S tr tr1) :
     OpResidual S (.replace f t sl) tr tr1 :=
-  PM.C04.replace_residual_of_inv S (family_det _ (domFamily_sub _ hS)) (family_fillersOK _ (domFamily_sub _ hS))
-    (family_leafOk _ (domFamily_sub _ hS)) (family_textStableC _ (domFamily_sub _ hS))
-    (family_closable _ (domFamily_sub _ hS)) tr tr1 hlen hattrs f t sl hslv hend h hres
+  PM.C04.replace_residual_of_inv S (family_det _ hS) (family_fillersOK _ hS) (family_leafOk _ hS)
+    (family_textStableC _ hS) (family_closable _ hS) tr tr1 hlen hattrs f t sl hslv hend h hres
 
 /-- `PM.C04.replace_residual` with its schema guards discharged for the bundled schema family -/
-theorem replace_residual (S : Schema) (hS : S ∈ domFamilySchemas) (tr tr1 : Tr)
+theorem replace_residual (S : Schema) (hS : S ∈ familySchemas) (tr tr1 : Tr)
     (hlen : tr.steps.length = tr.docs.length) (hv : C01.Valid S tr.doc) (hattrs : S.nodeAttrsOK tr.doc = true)
     (f t : Nat) (sl : Slice) (hloose : sl.looseValid S = true) (hrun : unplacedWfRun S tr.doc f t sl = true)
     (h : tr.runOp S (.replace f t sl) = some tr1) (hres : DeleteResidual S tr tr1) :
     OpResidual S (.replace f t sl) tr tr1 :=
-  PM.C04.replace_residual S (family_det _ (domFamily_sub _ hS)) (family_fillersOK _ (domFamily_sub _ hS))
-    (family_wrapOK _ (domFamily_sub _ hS)) (family_labelsOK _ (domFamily_sub _ hS))
-    (family_leafOk _ (domFamily_sub _ hS)) (family_textStableC _ (domFamily_sub _ hS))
-    (family_closable _ (domFamily_sub _ hS)) tr tr1 hlen hv hattrs f t sl hloose hrun h hres
+  PM.C04.replace_residual S (family_det _ hS) (family_fillersOK _ hS) (family_wrapOK _ hS)
+    (family_labelsOK _ hS) (family_leafOk _ hS) (family_textStableC _ hS) (family_closable _ hS) tr tr1 hlen hv
+    hattrs f t sl hloose hrun h hres
 
 /-- `PM.C04.replace_residual_cut` with its schema guards discharged for the bundled schema family -/
-theorem replace_residual_cut (S : Schema) (hS : S ∈ domFamilySchemas) (tr tr1 : Tr)
+theorem replace_residual_cut (S : Schema) (hS : S ∈ familySchemas) (tr tr1 : Tr)
     (hlen : tr.steps.length = tr.docs.length) (hv : C01.Valid S tr.doc) (hattrs : S.nodeAttrsOK tr.doc = true)
     (f t : Nat) (src : Node) (a b : Nat) (sl : Slice) (hsrc : C01.Valid S src) (hcut : src.slice a b = .ok sl)
     (hrun : unplacedWfRun S tr.doc f t sl = true) (h : tr.runOp S (.replace f t sl) = some tr1)
     (hres : DeleteResidual S tr tr1) :
     OpResidual S (.replace f t sl) tr tr1 :=
-  PM.C04.replace_residual_cut S (family_det _ (domFamily_sub _ hS)) (family_fillersOK _ (domFamily_sub _ hS))
-    (family_wrapOK _ (domFamily_sub _ hS)) (family_labelsOK _ (domFamily_sub _ hS))
-    (family_leafOk _ (domFamily_sub _ hS)) (family_textStableC _ (domFamily_sub _ hS))
-    (family_closable _ (domFamily_sub _ hS)) tr tr1 hlen hv hattrs f t src a b sl hsrc hcut hrun h hres
+  PM.C04.replace_residual_cut S (family_det _ hS) (family_fillersOK _ hS) (family_wrapOK _ hS)
+    (family_labelsOK _ hS) (family_leafOk _ hS) (family_textStableC _ hS) (family_closable _ hS) tr tr1 hlen hv
+    hattrs f t src a b sl hsrc hcut hrun h hres
 
 /-- `PM.C04.replaceOp_residual` with its schema guards discharged for the bundled schema family -/
-theorem replaceOp_residual (S : Schema) (hS : S ∈ domFamilySchemas) (tr tr1 : Tr)
+theorem replaceOp_residual (S : Schema) (hS : S ∈ familySchemas) (tr tr1 : Tr)
     (hlen : tr.steps.length = tr.docs.length) (hI : FamilyInv S tr.doc) (f t : Nat) (sl : Slice)
     (h : tr.runOp S (.replace f t sl) = some tr1) (hres : EditResidual S (.replace f t sl) tr tr1) :
     OpResidual S (.replace f t sl) tr tr1 :=
-  PM.C04.replaceOp_residual S (family_det _ (domFamily_sub _ hS)) (family_fillersOK _ (domFamily_sub _ hS))
-    (family_wrapOK _ (domFamily_sub _ hS)) (family_labelsOK _ (domFamily_sub _ hS))
-    (family_leafOk _ (domFamily_sub _ hS)) (family_textStableC _ (domFamily_sub _ hS))
-    (family_closable _ (domFamily_sub _ hS)) (family_textStable _ hS) tr tr1 hlen hI f t sl h hres
+  PM.C04.replaceOp_residual S (family_det _ hS) (family_fillersOK _ hS) (family_wrapOK _ hS)
+    (family_labelsOK _ hS) (family_leafOk _ hS) (family_textStableC _ hS) (family_closable _ hS) tr tr1 hlen hI
+    f t sl h hres
 
 /-- `PM.C04.editHistory_undo_bmp` with its schema guards discharged for the bundled schema family -/
-theorem editHistory_undo_bmp (S : Schema) (hS : S ∈ domFamilySchemas) (doc : Node) (ops : List Op) (tr' : Tr)
+theorem editHistory_undo_bmp (S : Schema) (hS : S ∈ familySchemas) (doc : Node) (ops : List Op) (tr' : Tr)
     (hd : S.checkNode doc = true) (hn : fnorm doc.kids = true) (hb : bmpDoc doc = true)
     (hall : ∀ op ∈ ops, editOp op = true) (h : (Tr.init doc).runOps S ops = some tr')
     (hres : OpsAll S (EditResidual S) (Tr.init doc) ops) :
     tr'.undo S = .ok doc ∧ FamilyInv S tr'.doc :=
-  PM.C04.editHistory_undo_bmp S (family_compatTrans _ (domFamily_sub _ hS))
-    (textLoop_of_B _ (family_textLoop _ (domFamily_sub _ hS))) (family_det _ (domFamily_sub _ hS))
-    (family_fillersOK _ (domFamily_sub _ hS)) (family_wrapOK _ (domFamily_sub _ hS))
-    (family_labelsOK _ (domFamily_sub _ hS)) (family_leafOk _ (domFamily_sub _ hS))
-    (family_textStableC _ (domFamily_sub _ hS)) (family_closable _ (domFamily_sub _ hS))
-    (family_textStable _ hS) doc ops tr' hd hn hb hall h hres
+  PM.C04.editHistory_undo_bmp S (family_compatTrans _ hS) (textLoop_of_B _ (family_textLoop _ hS))
+    (family_det _ hS) (family_fillersOK _ hS) (family_wrapOK _ hS) (family_labelsOK _ hS) (family_leafOk _ hS)
+    (family_textStableC _ hS) (family_closable _ hS) doc ops tr' hd hn hb hall h hres
 
 /-- `PM.C04.editResidual_of'` with its schema guards discharged for the bundled schema family -/
-theorem editResidual_of' (S : Schema) (hS : S ∈ domFamilySchemas) (op : Op) (tr tr1 : Tr)
+theorem editResidual_of' (S : Schema) (hS : S ∈ familySchemas) (op : Op) (tr tr1 : Tr)
     (hlen : tr.steps.length = tr.docs.length) (hI : FamilyInv S tr.doc) (hb : bmpDoc tr.doc = true)
     (h : tr.runOp S op = some tr1) (hres : EditResidual' S op tr tr1) :
     EditResidual S op tr tr1 :=
-  PM.C04.editResidual_of' S (family_det _ (domFamily_sub _ hS)) (family_fillersOK _ (domFamily_sub _ hS))
-    (family_wrapOK _ (domFamily_sub _ hS)) (family_labelsOK _ (domFamily_sub _ hS))
-    (family_leafOk _ (domFamily_sub _ hS)) (family_textStableC _ (domFamily_sub _ hS))
-    (family_closable _ (domFamily_sub _ hS)) (family_textStable _ hS) op tr tr1 hlen hI hb h hres
+  PM.C04.editResidual_of' S (family_det _ hS) (family_fillersOK _ hS) (family_wrapOK _ hS)
+    (family_labelsOK _ hS) (family_leafOk _ hS) (family_textStableC _ hS) (family_closable _ hS) op tr tr1 hlen
+    hI hb h hres
 
 /-- `PM.C04.editHistory_undo_bmp'` with its schema guards discharged for the bundled schema family -/
-theorem editHistory_undo_bmp' (S : Schema) (hS : S ∈ domFamilySchemas) (doc : Node) (ops : List Op) (tr' : Tr)
+theorem editHistory_undo_bmp' (S : Schema) (hS : S ∈ familySchemas) (doc : Node) (ops : List Op) (tr' : Tr)
     (hd : S.checkNode doc = true) (hn : fnorm doc.kids = true) (hb : bmpDoc doc = true)
     (hall : ∀ op ∈ ops, editOp op = true) (h : (Tr.init doc).runOps S ops = some tr')
     (hres : OpsAll S (EditResidual' S) (Tr.init doc) ops) :
     tr'.undo S = .ok doc ∧ FamilyInv S tr'.doc :=
-  PM.C04.editHistory_undo_bmp' S (family_compatTrans _ (domFamily_sub _ hS))
-    (textLoop_of_B _ (family_textLoop _ (domFamily_sub _ hS))) (family_det _ (domFamily_sub _ hS))
-    (family_fillersOK _ (domFamily_sub _ hS)) (family_wrapOK _ (domFamily_sub _ hS))
-    (family_labelsOK _ (domFamily_sub _ hS)) (family_leafOk _ (domFamily_sub _ hS))
-    (family_textStableC _ (domFamily_sub _ hS)) (family_closable _ (domFamily_sub _ hS))
-    (family_textStable _ hS) doc ops tr' hd hn hb hall h hres
-
-/-- `PM.C04.fit_around_gapFitsBack` with its schema guards discharged for the bundled schema family -/
-theorem fit_around_gapFitsBack (S : Schema) (hS : S ∈ familySchemas) (doc doc' : Node) (f t : Nat) (req : Slice)
-    (hd : S.checkNode doc = true) (hn : fnorm doc.kids = true) (hb : bmpDoc doc = true) (hft : f ≤ t) (s : Step)
-    (hr : replaceStep S doc f t req = .ok (some s)) (ha : S.apply s doc = .ok doc') :
-    AroundFitsBack S s doc :=
-  PM.C04.fit_around_gapFitsBack S (textLoop_of_B _ (family_textLoop _ hS)) doc doc' f t req hd hn hb hft s hr ha
+  PM.C04.editHistory_undo_bmp' S (family_compatTrans _ hS) (textLoop_of_B _ (family_textLoop _ hS))
+    (family_det _ hS) (family_fillersOK _ hS) (family_wrapOK _ hS) (family_labelsOK _ hS) (family_leafOk _ hS)
+    (family_textStableC _ hS) (family_closable _ hS) doc ops tr' hd hn hb hall h hres
 
 /-- `PM.C04.editResidual'_of_hyps` with its schema guards discharged for the bundled schema family -/
 theorem editResidual'_of_hyps (S : Schema) (hS : S ∈ familySchemas) (op : Op) (tr tr1 : Tr)
@@ -253,71 +243,57 @@ theorem editResidual'_of_hyps (S : Schema) (hS : S ∈ familySchemas) (op : Op) 
   PM.C04.editResidual'_of_hyps S (textLoop_of_B _ (family_textLoop _ hS)) op tr tr1 hlen hI hb h hres
 
 /-- `PM.C04.editHistory_undo` with its schema guards discharged for the bundled schema family -/
-theorem editHistory_undo (S : Schema) (hS : S ∈ domFamilySchemas) (doc : Node) (ops : List Op) (tr' : Tr)
+theorem editHistory_undo (S : Schema) (hS : S ∈ familySchemas) (doc : Node) (ops : List Op) (tr' : Tr)
     (hd : S.checkNode doc = true) (hn : fnorm doc.kids = true) (hb : bmpDoc doc = true)
     (hall : ∀ op ∈ ops, editOp op = true) (h : (Tr.init doc).runOps S ops = some tr')
     (hres : OpsAll S (EditHyps S) (Tr.init doc) ops) :
     tr'.undo S = .ok doc ∧ FamilyInv S tr'.doc :=
-  PM.C04.editHistory_undo S (family_compatTrans _ (domFamily_sub _ hS))
-    (textLoop_of_B _ (family_textLoop _ (domFamily_sub _ hS))) (family_det _ (domFamily_sub _ hS))
-    (family_fillersOK _ (domFamily_sub _ hS)) (family_wrapOK _ (domFamily_sub _ hS))
-    (family_labelsOK _ (domFamily_sub _ hS)) (family_leafOk _ (domFamily_sub _ hS))
-    (family_textStableC _ (domFamily_sub _ hS)) (family_closable _ (domFamily_sub _ hS))
-    (family_textStable _ hS) doc ops tr' hd hn hb hall h hres
+  PM.C04.editHistory_undo S (family_compatTrans _ hS) (textLoop_of_B _ (family_textLoop _ hS)) (family_det _ hS)
+    (family_fillersOK _ hS) (family_wrapOK _ hS) (family_labelsOK _ hS) (family_leafOk _ hS)
+    (family_textStableC _ hS) (family_closable _ hS) doc ops tr' hd hn hb hall h hres
 
 /-- `PM.C04.deleteOp_residual` with its schema guards discharged for the bundled schema family -/
-theorem deleteOp_residual (S : Schema) (hS : S ∈ domFamilySchemas) (tr tr1 : Tr)
+theorem deleteOp_residual (S : Schema) (hS : S ∈ familySchemas) (tr tr1 : Tr)
     (hlen : tr.steps.length = tr.docs.length) (hml : tr.maps.length = tr.steps.length) (hI : FamilyInv S tr.doc)
     (hb : bmpDoc tr.doc = true) (hattrs : S.nodeAttrsOK tr.doc = true) (f t : Nat) (hft : f ≤ t)
     (h : tr.runOp S (.replace f t Slice.empty) = some tr1) :
     OpResidual S (.replace f t Slice.empty) tr tr1 ∧ bmpDoc tr1.doc = true :=
-  PM.C04.deleteOp_residual S (family_compatTrans _ (domFamily_sub _ hS))
-    (textLoop_of_B _ (family_textLoop _ (domFamily_sub _ hS))) (family_det _ (domFamily_sub _ hS))
-    (family_fillersOK _ (domFamily_sub _ hS)) (family_wrapOK _ (domFamily_sub _ hS))
-    (family_labelsOK _ (domFamily_sub _ hS)) (family_leafOk _ (domFamily_sub _ hS))
-    (family_textStableC _ (domFamily_sub _ hS)) (family_closable _ (domFamily_sub _ hS))
-    (family_textStable _ hS) tr tr1 hlen hml hI hb hattrs f t hft h
+  PM.C04.deleteOp_residual S (family_compatTrans _ hS) (textLoop_of_B _ (family_textLoop _ hS))
+    (family_det _ hS) (family_fillersOK _ hS) (family_wrapOK _ hS) (family_labelsOK _ hS) (family_leafOk _ hS)
+    (family_textStableC _ hS) (family_closable _ hS) tr tr1 hlen hml hI hb hattrs f t hft h
 
 /-- `PM.C04.insertInlineOp_residual` with its schema guards discharged for the bundled schema family -/
-theorem insertInlineOp_residual (S : Schema) (hS : S ∈ domFamilySchemas) (tr tr1 : Tr)
+theorem insertInlineOp_residual (S : Schema) (hS : S ∈ familySchemas) (tr tr1 : Tr)
     (hlen : tr.steps.length = tr.docs.length) (hml : tr.maps.length = tr.steps.length) (hI : FamilyInv S tr.doc)
     (hb : bmpDoc tr.doc = true) (hattrs : S.nodeAttrsOK tr.doc = true) (f t : Nat) (hft : f ≤ t) (sl : Slice)
     (hsl : sl.inlineLeaves S = true) (hslv : sl.closedValid S = true) (hsb : sliceBmp sl = true)
     (h : tr.runOp S (.replace f t sl) = some tr1)
     (hnorm : HistAll (fun s _ _ => RecordedNorm s) (appended tr tr1) tr1.doc) :
     OpResidual S (.replace f t sl) tr tr1 ∧ bmpDoc tr1.doc = true :=
-  PM.C04.insertInlineOp_residual S (family_compatTrans _ (domFamily_sub _ hS))
-    (textLoop_of_B _ (family_textLoop _ (domFamily_sub _ hS))) (family_det _ (domFamily_sub _ hS))
-    (family_fillersOK _ (domFamily_sub _ hS)) (family_wrapOK _ (domFamily_sub _ hS))
-    (family_labelsOK _ (domFamily_sub _ hS)) (family_leafOk _ (domFamily_sub _ hS))
-    (family_textStableC _ (domFamily_sub _ hS)) (family_closable _ (domFamily_sub _ hS))
-    (family_textStable _ hS) tr tr1 hlen hml hI hb hattrs f t hft sl hsl hslv hsb h hnorm
+  PM.C04.insertInlineOp_residual S (family_compatTrans _ hS) (textLoop_of_B _ (family_textLoop _ hS))
+    (family_det _ hS) (family_fillersOK _ hS) (family_wrapOK _ hS) (family_labelsOK _ hS) (family_leafOk _ hS)
+    (family_textStableC _ hS) (family_closable _ hS) tr tr1 hlen hml hI hb hattrs f t hft sl hsl hslv hsb h
+    hnorm
 
 /-- `PM.C04.editHistory_undo'` with its schema guards discharged for the bundled schema family -/
-theorem editHistory_undo' (S : Schema) (hS : S ∈ domFamilySchemas) (doc : Node) (ops : List Op) (tr' : Tr)
+theorem editHistory_undo' (S : Schema) (hS : S ∈ familySchemas) (doc : Node) (ops : List Op) (tr' : Tr)
     (hd : S.checkNode doc = true) (hn : fnorm doc.kids = true) (hb : bmpDoc doc = true)
     (hall : ∀ op ∈ ops, editOp op = true) (h : (Tr.init doc).runOps S ops = some tr')
     (hres : OpsAll S (EditHyps' S) (Tr.init doc) ops) :
     tr'.undo S = .ok doc ∧ FamilyInv S tr'.doc :=
-  PM.C04.editHistory_undo' S (family_compatTrans _ (domFamily_sub _ hS))
-    (textLoop_of_B _ (family_textLoop _ (domFamily_sub _ hS))) (family_det _ (domFamily_sub _ hS))
-    (family_fillersOK _ (domFamily_sub _ hS)) (family_wrapOK _ (domFamily_sub _ hS))
-    (family_labelsOK _ (domFamily_sub _ hS)) (family_leafOk _ (domFamily_sub _ hS))
-    (family_textStableC _ (domFamily_sub _ hS)) (family_closable _ (domFamily_sub _ hS))
-    (family_textStable _ hS) doc ops tr' hd hn hb hall h hres
+  PM.C04.editHistory_undo' S (family_compatTrans _ hS) (textLoop_of_B _ (family_textLoop _ hS))
+    (family_det _ hS) (family_fillersOK _ hS) (family_wrapOK _ hS) (family_labelsOK _ hS) (family_leafOk _ hS)
+    (family_textStableC _ hS) (family_closable _ hS) doc ops tr' hd hn hb hall h hres
 
 /-- `PM.C04.insertInlineOp_residual'` with its schema guards discharged for the bundled schema family -/
-theorem insertInlineOp_residual' (S : Schema) (hS : S ∈ domFamilySchemas) (tr tr1 : Tr)
+theorem insertInlineOp_residual' (S : Schema) (hS : S ∈ familySchemas) (tr tr1 : Tr)
     (hlen : tr.steps.length = tr.docs.length) (hml : tr.maps.length = tr.steps.length) (hI : FamilyInv S tr.doc)
     (hb : bmpDoc tr.doc = true) (hattrs : S.nodeAttrsOK tr.doc = true) (f t : Nat) (hft : f ≤ t) (sl : Slice)
     (hsl : sl.inlineLeaves S = true) (hslv : sl.closedValid S = true) (hsb : sliceBmp sl = true)
     (hsn : fnorm sl.content = true) (h : tr.runOp S (.replace f t sl) = some tr1) :
     OpResidual S (.replace f t sl) tr tr1 ∧ bmpDoc tr1.doc = true :=
-  PM.C04.insertInlineOp_residual' S (family_compatTrans _ (domFamily_sub _ hS))
-    (textLoop_of_B _ (family_textLoop _ (domFamily_sub _ hS))) (family_det _ (domFamily_sub _ hS))
-    (family_fillersOK _ (domFamily_sub _ hS)) (family_wrapOK _ (domFamily_sub _ hS))
-    (family_labelsOK _ (domFamily_sub _ hS)) (family_leafOk _ (domFamily_sub _ hS))
-    (family_textStableC _ (domFamily_sub _ hS)) (family_closable _ (domFamily_sub _ hS))
-    (family_textStable _ hS) tr tr1 hlen hml hI hb hattrs f t hft sl hsl hslv hsb hsn h
+  PM.C04.insertInlineOp_residual' S (family_compatTrans _ hS) (textLoop_of_B _ (family_textLoop _ hS))
+    (family_det _ hS) (family_fillersOK _ hS) (family_wrapOK _ hS) (family_labelsOK _ hS) (family_leafOk _ hS)
+    (family_textStableC _ hS) (family_closable _ hS) tr tr1 hlen hml hI hb hattrs f t hft sl hsl hslv hsb hsn h
 
 end PM.Family.C04
